@@ -67,8 +67,10 @@ RL2Func(name, obj) ==
          [] name = "shape" -> IF rag THEN <<"pair", <<Len(rows)>>, Lens(rows)>> ELSE <<"ints", <<Len(rows), Len(rows[1])>>>>
          [] name = "sum" -> <<"flat", ReduceType("add", dt), [r \in DOMAIN rows |-> ReduceSeq("add", dt, rows[r])]>>
          \* row / column totals of 64-bit data given as 16-bit limbs: exact modulo 2^64 (NpVal!WideSum)
-         [] name = "wsum" -> IF dt \in {"i8", "u8"} THEN <<"flat", dt, [r \in DOMAIN rows |-> WideSum(rows[r])]>> ELSE R_UNSPEC
-         [] name = "wcolsum" -> IF dt \in {"i8", "u8"} THEN <<"flat", dt, [c \in 1..m |-> WideSum(ColValsD(rows, c - 1))]>> ELSE R_UNSPEC
+         [] name = "wsum" -> IF dt \in {"i8", "u8"} /\ \A r \in DOMAIN rows : WideFits(rows[r], dt)
+                             THEN <<"flat", dt, [r \in DOMAIN rows |-> WideSum(rows[r])]>> ELSE R_UNSPEC
+         [] name = "wcolsum" -> IF dt \in {"i8", "u8"} /\ \A c \in 1..m : WideFits(ColValsD(rows, c - 1), dt)
+                                THEN <<"flat", dt, [c \in 1..m |-> WideSum(ColValsD(rows, c - 1))]>> ELSE R_UNSPEC
          [] name = "any" -> <<"flat", "b1", [r \in DOMAIN rows |-> ReduceSeq("logical_or", dt, rows[r])]>>
          [] name = "all" -> <<"flat", "b1", [r \in DOMAIN rows |-> ReduceSeq("logical_and", dt, rows[r])]>>
          [] name = "max" -> IF ~rag THEN R_UNSPEC ELSE <<"flat", dt, [r \in DOMAIN rows |-> ReduceSeq("maximum", dt, rows[r])]>>
